@@ -20,6 +20,8 @@ def construct(fn_or_cls, node: Optional[ast.AST] = None, text: Optional[str] = N
     if text is None:
         return head
     text = " ".join(text.split())
+    if isinstance(fn_or_cls, FuncInfo):
+        text = alpha_locals(fn_or_cls, text)
     if len(text) > 200:
         text = text[:200] + "..."
     return f"{head} :: {text}"
@@ -123,3 +125,64 @@ def method_on(program: Program, cls_fq: str, name: str) -> FuncInfo:
 
 def str_consts(node: ast.AST) -> List[str]:
     return [n.value for n in ast.walk(node) if isinstance(n, ast.Constant) and isinstance(n.value, str)]
+
+
+_LOCALS_CACHE = {}
+
+
+def local_names(fn: FuncInfo) -> List[str]:
+    """Locals of fn (assigned names that are not parameters), in order of first appearance, including those of
+    enclosing functions (a nested closure's free variables are locals of its parents)."""
+    if fn.fq in _LOCALS_CACHE:
+        return _LOCALS_CACHE[fn.fq]
+    import builtins as _b
+
+    chain = []
+    f = fn
+    while f is not None:
+        chain.append(f)
+        f = f.parent
+    names: List[Tuple[int, int, str]] = []
+    params = set()
+    for f in chain:
+        a = f.node.args
+        for x in a.posonlyargs + a.args + a.kwonlyargs:
+            params.add(x.arg)
+        if a.vararg:
+            params.add(a.vararg.arg)
+        if a.kwarg:
+            params.add(a.kwarg.arg)
+    root = chain[-1].node
+    for n in ast.walk(root):
+        if isinstance(n, ast.Name) and isinstance(n.ctx, (ast.Store, ast.Del)):
+            names.append((n.lineno, n.col_offset, n.id))
+        elif isinstance(n, ast.ExceptHandler) and n.name:
+            names.append((n.lineno, n.col_offset, n.name))
+        elif isinstance(n, (ast.FunctionDef, ast.AsyncFunctionDef, ast.Lambda)) and n is not root:
+            a = n.args
+            for x in a.posonlyargs + a.args + a.kwonlyargs:
+                if n is not fn.node:
+                    pass
+    out: List[str] = []
+    for _, _, nm in sorted(names):
+        if nm not in params and nm not in out and not hasattr(_b, nm) and nm != "_":
+            out.append(nm)
+    _LOCALS_CACHE[fn.fq] = out
+    return out
+
+
+def alpha_locals(fn: FuncInfo, text: str) -> str:
+    """Replace the function's local variable names in `text` by positional placeholders (L0, L1, ...), so that
+    construct keys and reports do not depend on how locals are called."""
+    import re as _re
+
+    loc = local_names(fn)
+    if not loc:
+        return text
+    idx = {nm: i for i, nm in enumerate(loc)}
+    pat = _re.compile(r"(?<![\w.])(" + "|".join(_re.escape(n) for n in sorted(loc, key=len, reverse=True)) + r")(?![\w])")
+    # never touch the inside of string literals
+    parts = _re.split(r"""('[^'\\]*(?:\\.[^'\\]*)*'|"[^"\\]*(?:\\.[^"\\]*)*")""", text)
+    for i in range(0, len(parts), 2):
+        parts[i] = pat.sub(lambda m: f"L{idx[m.group(1)]}", parts[i])
+    return "".join(parts)
